@@ -2,11 +2,11 @@
 package main
 
 import (
-	_ "time/tzdata"
 	"fmt"
 	"os"
 	"sort"
 	"time"
+	_ "time/tzdata"
 
 	"github.com/pinealctx/neptune/idgen/snowflake"
 
@@ -100,8 +100,18 @@ func tFamily(l layout, quick bool) []int64 {
 
 func run(r *ev.Run, l layout) {
 	t0 := time.Now()
-	restore := snowflake.VerifSetConfig(l.epoch, l.nodeBits, l.lowest)
-	defer restore()
+	// the layout is established through the public Setup call (fresh process), options in an order that
+	// varies with the layout, and verified through the read-only hook
+	opts := []snowflake.Option{snowflake.UseEpoch(time.UnixMilli(l.epoch)), snowflake.UseNodeMode(snowflake.NodeBitsMode(l.nodeBits))}
+	if l.lowest {
+		opts = append(opts, snowflake.NodeAtLowest())
+	}
+	rot := int(l.nodeBits) % len(opts)
+	snowflake.Setup(append(append([]snowflake.Option{}, opts[rot:]...), opts[:rot]...)...)
+	if e, b, lo := snowflake.VerifConfig(); e != l.epoch || b != l.nodeBits || lo != l.lowest {
+		r.Violate(ev.Violation{Signature: "setup: the options do not establish the requested layout", Scenario: "setup/" + l.String(),
+			What: fmt.Sprintf("Setup for %s established epoch=%d nodeBits=%d nodeAtLowest=%v", l.String(), e, b, lo)})
+	}
 	name := "codec/" + l.String()
 	nodeMax := int64(1)<<l.nodeBits - 1
 	mask := int64(1)<<l.shift() - 1
